@@ -53,6 +53,9 @@ var OutsideAtoms = []OutsideAtom{
 	{ID: "constlocal", Kind: "stmt", Code: "const lc uint64 = 5\n\tx += lc", Site: "varDeclStmt: non-var declaration"},
 	{ID: "typelocal", Kind: "stmt", Code: "type lt uint64\n\tvar lv lt = 4\n\tx += uint64(lv)", Site: "varDeclStmt: non-var declaration"},
 	{ID: "gowithargs", Kind: "stmt", Code: "go sideEffect(q, x)", Site: "goStmt: go statement with parameters"},
+	{ID: "gowithargs_observable", Kind: "stmt", Code: "gw := new(sync.WaitGroup)\n\tgw.Add(1)\n\tgo addIntoDone(gw, q, x)\n\tx = x + 100\n\tgw.Wait()", Site: "goStmt: arguments are evaluated by the spawner", NoLoop: true},
+	{ID: "gomethod_observable", Kind: "stmt", Code: "gw := new(sync.WaitGroup)\n\tgw.Add(1)\n\tgh := &H{f: 1}\n\tgo gh.addDone(gw, q, x)\n\tx = x + 100\n\tgw.Wait()", Site: "goStmt: method call spawn", NoLoop: true},
+	{ID: "gofunclit_ok", Kind: "stmt", Code: "gw := new(sync.WaitGroup)\n\tgw.Add(1)\n\txc := x\n\tgo func() {\n\t\t*q = *q + xc\n\t\tgw.Done()\n\t}()\n\tx = x + 100\n\tgw.Wait()", Site: "supported spawn form", NoLoop: true},
 	{ID: "gonamed", Kind: "stmt", Code: "go sideEffect0()", Site: "spawnExpr: only function literal spawns"},
 	{ID: "labeled", Kind: "stmt", Code: "outer:\n\tfor {\n\t\tx++\n\t\tif x > 3 {\n\t\t\tbreak outer\n\t\t}\n\t}", Site: "stmtInBlock default (labeled)"},
 	{ID: "gotostmt", Kind: "stmt", Code: "if x > 100 {\n\t\tgoto done\n\t}\n\tx += 5\ndone:\n\tx += 1", Site: "branchStmt / labeled", NoLoop: true},
@@ -148,12 +151,60 @@ func two(v uint64) (uint64, uint64) {
 	return v + 1, v * 2
 }
 
+func three(v uint64) (uint64, bool, uint32) {
+	return v + 2, v%2 == 0, uint32(v) + 9
+}
+
+type Seen map[uint64]bool
+
+type Counts map[string]uint64
+
+type Bytes []byte
+
+const Limit uint64 = 1000
+
+var Factor uint64 = 10
+
+func globalUser(v uint64) uint64 {
+	return v*Factor + Limit
+}
+
+func shadowParam(Limit uint64, Factor uint64) uint64 {
+	if Limit > Factor {
+		return Limit - Factor
+	}
+	return Limit + Factor
+}
+
+func applyFn(f func(uint64) uint64, v uint64) uint64 {
+	return f(f(v))
+}
+
 var _ = machine.UInt64Get
 
 type H struct {
 	f uint64
 	g uint32
 	b byte
+}
+
+func (h *H) addTo(d uint64) uint64 {
+	h.f = h.f + d
+	return h.f
+}
+
+func (h H) sumWith(d uint64) uint64 {
+	return h.f + uint64(h.g) + d
+}
+
+func addIntoDone(wg *sync.WaitGroup, q *uint64, v uint64) {
+	*q = *q + v
+	wg.Done()
+}
+
+func (h *H) addDone(wg *sync.WaitGroup, q *uint64, v uint64) {
+	*q = *q + v + h.f
+	wg.Done()
 }
 
 func sideEffect(q *uint64, v uint64) {
@@ -290,4 +341,19 @@ var InsideAtoms = []OutsideAtom{
 	{ID: "encode", Kind: "stmt", Code: "eb := make([]byte, 12)\n\tmachine.UInt64Put(eb, x)\n\tmachine.UInt32Put(eb[8:], w)\n\tx = machine.UInt64Get(eb) + uint64(machine.UInt32Get(eb[8:]))"},
 	{ID: "nested_block_fresh", Kind: "stmt", Code: "{\n\t\tfresh1 := x + 1\n\t\tx = fresh1 * 2\n\t}"},
 	{ID: "lock", Kind: "stmt", Code: "mu := new(sync.Mutex)\n\tmu.Lock()\n\tx += 1\n\tmu.Unlock()"},
+	{ID: "named_map_absent_bool", Kind: "stmt", Code: "sn := make(Seen)\n\tif !sn[x] {\n\t\tx += 3\n\t}\n\tx += uint64(len(sn))"},
+	{ID: "named_map_absent_u64", Kind: "stmt", Code: "cn := make(Counts)\n\tx += cn[\"k\"] + 1"},
+	{ID: "named_map_insert", Kind: "stmt", Code: "sn := make(Seen)\n\tsn[x] = true\n\tif sn[x] {\n\t\tx += 5\n\t}"},
+	{ID: "named_slice", Kind: "stmt", Code: "nb := make(Bytes, 3)\n\tnb = append(nb, 7)\n\tx += uint64(len(nb)) + uint64(nb[3])"},
+	{ID: "map_make_absent_kinds", Kind: "stmt", Code: "mb := make(map[uint64]bool)\n\tms := make(map[uint64]string)\n\tm32 := make(map[uint64]uint32)\n\tmsl := make(map[string][]byte)\n\tif !mb[1] {\n\t\tx += uint64(len(ms[2])) + uint64(m32[3]) + uint64(len(msl[\"q\"])) + 1\n\t}"},
+	{ID: "multiassign_blank_first", Kind: "stmt", Code: "var y2 uint64\n\t_, y2 = two(x)\n\tx = x + y2*3"},
+	{ID: "multiassign_blank_last", Kind: "stmt", Code: "var y2 uint64\n\ty2, _ = two(x)\n\tx = x + y2*3"},
+	{ID: "multiassign_blank_mixed4", Kind: "stmt", Code: "var a1 uint64\n\tvar a4 uint64\n\ta1, _, _, a4 = four(x)\n\tx = a1*5 + a4"},
+	{ID: "multiassign_blank_mid4", Kind: "stmt", Code: "var a3 uint64\n\t_, _, a3, _ = four(x)\n\tx = x + a3*7"},
+	{ID: "multiassign_to_fields", Kind: "stmt", Code: "p.f, s[1] = two(x)\n\tx = x + 1"},
+	{ID: "three_results", Kind: "stmt", Code: "t1, t2, t3 := three(x)\n\tif t2 {\n\t\tx = t1 + uint64(t3)\n\t}"},
+	{ID: "method_value", Kind: "stmt", Code: "h2 := &H{f: x}\n\tg := h2.addTo\n\tr1 := g(5)\n\tr2 := applyFn(h2.addTo, 2)\n\tx = r1 + r2*3"},
+	{ID: "method_value_valrecv", Kind: "stmt", Code: "h3 := H{f: x, g: 2}\n\tgv := h3.sumWith\n\tx = gv(1)"},
+	{ID: "local_shadows_global", Kind: "stmt", Code: "Limit := x + 1\n\tvar Factor uint64 = 2\n\tx = Limit*Factor + globalUser(1)"},
+	{ID: "param_named_like_global", Kind: "stmt", Code: "x = shadowParam(x, 3) + Limit"},
 }
